@@ -14,6 +14,22 @@ CHECKS = {
          "(element, point) pair (action), for 12 group types x {double,float}, each judged against the documented matrix form "
          "evaluated in long double.",
     design="4/C01", technique="explicit-state enumeration of a finite input product space against a reference model"),
+ "C02": dict(
+    text="Bounded exhaustive enumeration on the real implementation: every tangent of the branch-structured alphabet (rotation norm "
+         "0..50, both sides of every Taylor/closed-form switch incl. +-1 ulp, the neighbourhood of pi, translation magnitudes 0..1e3) and "
+         "every element of the element alphabet, for 12 group types x {double,float}; exp is compared with the scaling-and-squaring matrix "
+         "exponential of the documented hat matrix in long double, log by exponentiating it with the reference, at the stated tolerances.",
+    design="4/C02", technique="explicit-state enumeration of a finite input space against a reference model"),
+ "C03": dict(
+    text="Bounded exhaustive enumeration: all alphabet tangents (hat, vee, ad, Ad(exp a)), all alphabet elements (Ad), all pairs of the "
+         "reduced alphabets (bracket, antisymmetry, Ad homomorphism) and all triples of a small alphabet (Jacobi), 12 types x 2 scalars, "
+         "against references derived generically from the documented matrix / algebra forms (vee(M hat M^-1), vee([A,B]), expm(ad)).",
+    design="4/C03", technique="explicit-state enumeration of finite input product spaces against a reference model"),
+ "C04": dict(
+    text="Bounded exhaustive enumeration: every alphabet tangent (any rotation norm for dr_exp/dl_exp, <= pi-1e-3 for the inverse and "
+         "rminus Jacobians) and every (element, point) pair for dr_action, 12 types x 2 scalars, against phi1(-/+ad) computed through an "
+         "augmented matrix exponential in long double, its LU inverse, and M hat(e_i) v, at the stated 1e-7 / 1e-2 bound.",
+    design="4/C04", technique="explicit-state enumeration of a finite input space against a reference model"),
 }
 
 PENDING_REASON = "check not built yet in this session (planned in DESIGN.md section 4); will be claimed once its harness runs clean"
